@@ -19,6 +19,7 @@ CONSTANTS Kinds, Ids,          \* resources are (kind, id)
           Cfg,                 \* Cfg[c] = [fl |-> "r"|"q", ins |-> set of [k, id, ik], late |-> BOOLEAN]
           Cached,              \* set of cached kinds
           MaxWrites, MaxFaults,
+          Alt,                 \* Alt[c] = inputs controller c switches to by UpdateInputs ({} = it never does)
           MapTo(_, _)          \* mapper of queue controllers: (kind, id) of a mapped input -> set of primary [k, id]
 
 NoId == 0
@@ -33,19 +34,21 @@ VARIABLES store, nw,
           dlpc, dlkey,                    \* delivery goroutine
           cache, boot, bsent,             \* read cache contents, bootstrapped flag, bootstrap batch sent (per cached kind)
           started,                        \* controllers whose adapter runs
+          alt,                            \* controllers that already switched to their alternative inputs (UpdateInputs)
           ech, cpc, robs,                 \* reduced runtime: event channel, location, last observation per key
           queue, qpc, qitem, qobs, need,  \* queue runtime: pending items, worker location, item in hand, last observation per primary key,
                                           \* ghost: primaries a mapped change still has to reach
           faults
 
-vars == <<store, nw, wpend, watchCh, ddpc, ddev, mloc, m, dlpc, dlkey, cache, boot, bsent, started,
+vars == <<store, nw, wpend, watchCh, ddpc, ddev, mloc, m, dlpc, dlkey, cache, boot, bsent, started, alt, alt,
           ech, cpc, robs, queue, qpc, qitem, qobs, need, faults>>
 
+Ins(c) == IF alt[c] THEN Alt[c] ELSE Cfg[c].ins      \* the inputs currently declared
 RC == {c \in Ctrls : Cfg[c].fl = "r"}
 QC == {c \in Ctrls : Cfg[c].fl = "q"}
 Matches(i, key) == i.k = key.k /\ (i.id = NoId \/ i.id = key.id)
 (* routing of the dependency database *)
-Dependents(key) == {c \in started : \E i \in Cfg[c].ins : Matches(i, key)}
+Dependents(key) == {c \in started : \E i \in Ins(c) : Matches(i, key)}
 (* what a reader sees: cached kinds are read from the cache *)
 ReadVal(key) == IF key.k \in Cached THEN cache[key] ELSE store[key]
 CanRead(key) == key.k \notin Cached \/ boot[key.k]
@@ -56,7 +59,7 @@ Init ==
   /\ ddpc = "wait" /\ ddev = <<>> /\ mloc = "empty" /\ m = [key \in Keys |-> None]
   /\ dlpc = "wait" /\ dlkey = <<>>
   /\ cache = [key \in Keys |-> Absent] /\ boot = [k \in Kinds |-> FALSE] /\ bsent = [k \in Kinds |-> FALSE]
-  /\ started = {c \in Ctrls : ~Cfg[c].late}
+  /\ started = {c \in Ctrls : ~Cfg[c].late} /\ alt = [c \in Ctrls |-> FALSE]
   /\ ech = [c \in Ctrls |-> 1]                \* registration triggers an initial reconcile
   /\ cpc = [c \in Ctrls |-> "idle"]
   /\ robs = [c \in Ctrls |-> [key \in Keys |-> Absent]]
@@ -76,13 +79,13 @@ Write(key) ==
        /\ need' = [c \in Ctrls |->
                      IF c \in QC /\ c \in started
                      THEN need[c]
-                          \cup (IF \E i \in Cfg[c].ins : i.k = key.k /\ i.ik = "qMapped"
+                          \cup (IF \E i \in Ins(c) : i.k = key.k /\ i.ik = "qMapped"
                                 THEN {[p |-> p, src |-> key, dr |-> FALSE] : p \in MapTo(key.k, key.id)} ELSE {})
-                          \cup (IF nv # Absent /\ DestroyReady(nv) /\ \E i \in Cfg[c].ins : i.k = key.k /\ i.ik = "qMappedDestroyReady"
+                          \cup (IF nv # Absent /\ DestroyReady(nv) /\ \E i \in Ins(c) : i.k = key.k /\ i.ik = "qMappedDestroyReady"
                                 THEN {[p |-> p, src |-> key, dr |-> TRUE] : p \in MapTo(key.k, key.id)} ELSE {})
                      ELSE need[c]]
   /\ nw' = nw + 1
-  /\ UNCHANGED <<watchCh, ddpc, ddev, mloc, m, dlpc, dlkey, cache, boot, bsent, started, ech, cpc, robs, queue, qpc, qitem, qobs, faults>>
+  /\ UNCHANGED <<watchCh, ddpc, ddev, mloc, m, dlpc, dlkey, cache, boot, bsent, started, alt, ech, cpc, robs, queue, qpc, qitem, qobs, faults>>
 
 (* the aggregated watcher of kind k sends what it has as one batch; the first batch of a cached kind is the bootstrap *)
 WatcherBatch(k) ==
@@ -91,7 +94,7 @@ WatcherBatch(k) ==
   /\ watchCh' = Append(watchCh, [k |-> k, evs |-> wpend[k], bootstrap |-> (k \in Cached /\ ~bsent[k])])
   /\ bsent' = [bsent EXCEPT ![k] = TRUE]
   /\ wpend' = [wpend EXCEPT ![k] = <<>>]
-  /\ UNCHANGED <<store, nw, ddpc, ddev, mloc, m, dlpc, dlkey, cache, boot, started, ech, cpc, robs, queue, qpc, qitem, qobs, need, faults>>
+  /\ UNCHANGED <<store, nw, ddpc, ddev, mloc, m, dlpc, dlkey, cache, boot, started, alt, ech, cpc, robs, queue, qpc, qitem, qobs, need, faults>>
 
 (* ---------------------------------------------------------------- dedup *)
 RECURSIVE ApplyM(_, _), ApplyC(_, _)
@@ -105,57 +108,61 @@ Process(batch) ==
   /\ boot' = IF batch.bootstrap THEN [boot EXCEPT ![batch.k] = TRUE] ELSE boot
 
 DDTake == /\ ddpc = "wait" /\ watchCh # <<>> /\ ddev' = <<Head(watchCh)>> /\ watchCh' = Tail(watchCh) /\ ddpc' = "acquire"
-          /\ UNCHANGED <<store, nw, wpend, mloc, m, dlpc, dlkey, cache, boot, bsent, started, ech, cpc, robs, queue, qpc, qitem, qobs, need, faults>>
+          /\ UNCHANGED <<store, nw, wpend, mloc, m, dlpc, dlkey, cache, boot, bsent, started, alt, ech, cpc, robs, queue, qpc, qitem, qobs, need, faults>>
 DDAcquire == /\ ddpc = "acquire" /\ mloc \in {"empty", "ch"} /\ mloc' = "dd" /\ Process(ddev[1]) /\ ddev' = <<>> /\ ddpc' = "drain"
-             /\ UNCHANGED <<store, nw, wpend, watchCh, dlpc, dlkey, bsent, started, ech, cpc, robs, queue, qpc, qitem, qobs, need, faults>>
+             /\ UNCHANGED <<store, nw, wpend, watchCh, dlpc, dlkey, bsent, started, alt, ech, cpc, robs, queue, qpc, qitem, qobs, need, faults>>
 DDDrain == /\ ddpc = "drain"
            /\ \/ /\ watchCh # <<>> /\ Process(Head(watchCh)) /\ watchCh' = Tail(watchCh) /\ UNCHANGED <<ddpc, mloc>>
               \/ /\ watchCh = <<>> /\ ddpc' = "wait" /\ UNCHANGED <<m, watchCh, cache, boot>>
                  /\ mloc' = IF \A key \in Keys : m[key] = None THEN "empty" ELSE "ch"
-           /\ UNCHANGED <<store, nw, wpend, ddev, dlpc, dlkey, bsent, started, ech, cpc, robs, queue, qpc, qitem, qobs, need, faults>>
+           /\ UNCHANGED <<store, nw, wpend, ddev, dlpc, dlkey, bsent, started, alt, ech, cpc, robs, queue, qpc, qitem, qobs, need, faults>>
 
 (* ------------------------------------------------------------- delivery *)
 DLTake == /\ dlpc = "wait" /\ mloc = "ch"
           /\ \E key \in {x \in Keys : m[x] # None} : dlkey' = <<key, m[key]>> /\ m' = [m EXCEPT ![key] = None]
           /\ mloc' = "dl" /\ dlpc' = "return"
-          /\ UNCHANGED <<store, nw, wpend, watchCh, ddpc, ddev, cache, boot, bsent, started, ech, cpc, robs, queue, qpc, qitem, qobs, need, faults>>
+          /\ UNCHANGED <<store, nw, wpend, watchCh, ddpc, ddev, cache, boot, bsent, started, alt, ech, cpc, robs, queue, qpc, qitem, qobs, need, faults>>
 DLReturn == /\ dlpc = "return" /\ mloc' = (IF \A key \in Keys : m[key] = None THEN "empty" ELSE "ch") /\ dlpc' = "trigger"
-            /\ UNCHANGED <<store, nw, wpend, watchCh, ddpc, ddev, m, dlkey, cache, boot, bsent, started, ech, cpc, robs, queue, qpc, qitem, qobs, need, faults>>
+            /\ UNCHANGED <<store, nw, wpend, watchCh, ddpc, ddev, m, dlkey, cache, boot, bsent, started, alt, ech, cpc, robs, queue, qpc, qitem, qobs, need, faults>>
 
 (* reduced runtime: skip only if every matching input filters the event out *)
-RTriggered(c, key, v) == \E i \in Cfg[c].ins : Matches(i, key) /\ (i.ik = "destroyReady" => DestroyReady(v))
+RTriggered(c, key, v) == \E i \in Ins(c) : Matches(i, key) /\ (i.ik = "destroyReady" => DestroyReady(v))
 (* queue runtime: every input of the kind routes the event (the id of the input is not consulted) *)
 QItems(c, key, v) ==
   UNION {IF i.ik = "qPrimary" THEN {[job |-> "rec", key |-> key]}
          ELSE IF i.ik = "qMapped" \/ (i.ik = "qMappedDestroyReady" /\ DestroyReady(v)) THEN {[job |-> "map", key |-> key]}
-         ELSE {} : i \in {x \in Cfg[c].ins : x.k = key.k}}
+         ELSE {} : i \in {x \in Ins(c) : x.k = key.k}}
 DLTrigger ==
   /\ dlpc = "trigger"
   /\ LET key == dlkey[1]  v == dlkey[2]  deps == Dependents(key) IN
      /\ ech' = [c \in Ctrls |-> IF c \in deps /\ c \in RC /\ RTriggered(c, key, v) THEN 1 ELSE ech[c]]
      /\ queue' = [c \in Ctrls |-> IF c \in deps /\ c \in QC THEN queue[c] \cup QItems(c, key, v) ELSE queue[c]]
   /\ dlpc' = "wait" /\ dlkey' = <<>>
-  /\ UNCHANGED <<store, nw, wpend, watchCh, ddpc, ddev, mloc, m, cache, boot, bsent, started, cpc, robs, qpc, qitem, qobs, need, faults>>
+  /\ UNCHANGED <<store, nw, wpend, watchCh, ddpc, ddev, mloc, m, cache, boot, bsent, started, alt, cpc, robs, qpc, qitem, qobs, need, faults>>
 
 (* ----------------------------------------------------- reduced controllers *)
-RInputKeys(c) == {key \in Keys : \E i \in Cfg[c].ins : Matches(i, key)}
+RInputKeys(c) == {key \in Keys : \E i \in Ins(c) : Matches(i, key)}
 CWake(c) == /\ c \in RC /\ c \in started /\ cpc[c] = "idle" /\ ech[c] = 1
             /\ ech' = [ech EXCEPT ![c] = 0] /\ cpc' = [cpc EXCEPT ![c] = "busy"]
-            /\ UNCHANGED <<store, nw, wpend, watchCh, ddpc, ddev, mloc, m, dlpc, dlkey, cache, boot, bsent, started, robs, queue, qpc, qitem, qobs, need, faults>>
+            /\ UNCHANGED <<store, nw, wpend, watchCh, ddpc, ddev, mloc, m, dlpc, dlkey, cache, boot, bsent, started, alt, robs, queue, qpc, qitem, qobs, need, faults>>
 CRead(c) == /\ c \in RC /\ cpc[c] = "busy" /\ \A key \in RInputKeys(c) : CanRead(key)
             /\ robs' = [robs EXCEPT ![c] = [key \in Keys |-> IF key \in RInputKeys(c) THEN ReadVal(key) ELSE @[key]]]
             /\ cpc' = [cpc EXCEPT ![c] = "idle"]
-            /\ UNCHANGED <<store, nw, wpend, watchCh, ddpc, ddev, mloc, m, dlpc, dlkey, cache, boot, bsent, started, ech, queue, qpc, qitem, qobs, need, faults>>
+            /\ UNCHANGED <<store, nw, wpend, watchCh, ddpc, ddev, mloc, m, dlpc, dlkey, cache, boot, bsent, started, alt, ech, queue, qpc, qitem, qobs, need, faults>>
+(* inside a reconcile the controller replaces its inputs (UpdateInputs): routing follows at once *)
+CUpdate(c) == /\ c \in RC /\ cpc[c] = "busy" /\ ~alt[c] /\ Alt[c] # {}
+              /\ alt' = [alt EXCEPT ![c] = TRUE]
+              /\ UNCHANGED <<store, nw, wpend, watchCh, ddpc, ddev, mloc, m, dlpc, dlkey, cache, boot, bsent, started, ech, cpc, robs, queue, qpc, qitem, qobs, need, faults>>
 (* the reconcile fails (error or panic): restart after back-off with a fresh trigger *)
 CFail(c) == /\ c \in RC /\ cpc[c] = "busy" /\ faults < MaxFaults
             /\ faults' = faults + 1 /\ cpc' = [cpc EXCEPT ![c] = "idle"] /\ ech' = [ech EXCEPT ![c] = 1]
-            /\ UNCHANGED <<store, nw, wpend, watchCh, ddpc, ddev, mloc, m, dlpc, dlkey, cache, boot, bsent, started, robs, queue, qpc, qitem, qobs, need>>
+            /\ UNCHANGED <<store, nw, wpend, watchCh, ddpc, ddev, mloc, m, dlpc, dlkey, cache, boot, bsent, started, alt, robs, queue, qpc, qitem, qobs, need>>
 
 (* ------------------------------------------------------- queue controllers *)
 QGet(c) == /\ c \in QC /\ c \in started /\ qpc[c] = "idle" /\ queue[c] # {}
            /\ \E it \in queue[c] : qitem' = [qitem EXCEPT ![c] = <<it>>] /\ queue' = [queue EXCEPT ![c] = @ \ {it}]
            /\ qpc' = [qpc EXCEPT ![c] = "busy"]
-           /\ UNCHANGED <<store, nw, wpend, watchCh, ddpc, ddev, mloc, m, dlpc, dlkey, cache, boot, bsent, started, ech, cpc, robs, qobs, need, faults>>
+           /\ UNCHANGED <<store, nw, wpend, watchCh, ddpc, ddev, mloc, m, dlpc, dlkey, cache, boot, bsent, started, alt, ech, cpc, robs, qobs, need, faults>>
 QRun(c) == /\ c \in QC /\ qpc[c] = "busy"
            /\ LET it == qitem[c][1] IN
               IF it.job = "rec"
@@ -165,23 +172,23 @@ QRun(c) == /\ c \in QC /\ qpc[c] = "busy"
               ELSE /\ queue' = [queue EXCEPT ![c] = @ \cup {[job |-> "rec", key |-> p] : p \in MapTo(it.key.k, it.key.id)}]
                    /\ UNCHANGED <<qobs, need>>
            /\ qpc' = [qpc EXCEPT ![c] = "idle"] /\ qitem' = [qitem EXCEPT ![c] = <<>>]
-           /\ UNCHANGED <<store, nw, wpend, watchCh, ddpc, ddev, mloc, m, dlpc, dlkey, cache, boot, bsent, started, ech, cpc, robs, faults>>
+           /\ UNCHANGED <<store, nw, wpend, watchCh, ddpc, ddev, mloc, m, dlpc, dlkey, cache, boot, bsent, started, alt, ech, cpc, robs, faults>>
 (* a failing item is retried (back-off elided) *)
 QFail(c) == /\ c \in QC /\ qpc[c] = "busy" /\ faults < MaxFaults
             /\ faults' = faults + 1 /\ queue' = [queue EXCEPT ![c] = @ \cup {qitem[c][1]}]
             /\ qpc' = [qpc EXCEPT ![c] = "idle"] /\ qitem' = [qitem EXCEPT ![c] = <<>>]
-            /\ UNCHANGED <<store, nw, wpend, watchCh, ddpc, ddev, mloc, m, dlpc, dlkey, cache, boot, bsent, started, ech, cpc, robs, qobs, need>>
+            /\ UNCHANGED <<store, nw, wpend, watchCh, ddpc, ddev, mloc, m, dlpc, dlkey, cache, boot, bsent, started, alt, ech, cpc, robs, qobs, need>>
 
 (* registration after start: the watch exists before the adapter runs; a queue controller lists its primaries *)
-QPrimaries(c) == {key \in Keys : \E i \in Cfg[c].ins : i.ik = "qPrimary" /\ i.k = key.k}
+QPrimaries(c) == {key \in Keys : \E i \in Ins(c) : i.ik = "qPrimary" /\ i.k = key.k}
 StartLate(c) ==
-  /\ c \notin started /\ started' = started \cup {c}
+  /\ c \notin started /\ started' = started \cup {c} /\ UNCHANGED alt
   /\ queue' = [queue EXCEPT ![c] = IF c \in QC THEN {[job |-> "rec", key |-> key] : key \in {x \in QPrimaries(c) : ReadVal(x).ver > 0}} ELSE @]
   /\ UNCHANGED <<store, nw, wpend, watchCh, ddpc, ddev, mloc, m, dlpc, dlkey, cache, boot, bsent, ech, cpc, robs, qpc, qitem, qobs, need, faults>>
 
 Internal == \/ \E k \in Kinds : WatcherBatch(k)
             \/ DDTake \/ DDAcquire \/ DDDrain \/ DLTake \/ DLReturn \/ DLTrigger
-            \/ \E c \in Ctrls : CWake(c) \/ CRead(c) \/ CFail(c) \/ QGet(c) \/ QRun(c) \/ QFail(c) \/ StartLate(c)
+            \/ \E c \in Ctrls : CWake(c) \/ CRead(c) \/ CUpdate(c) \/ CFail(c) \/ QGet(c) \/ QRun(c) \/ QFail(c) \/ StartLate(c)
 Next == Internal \/ \E key \in Keys : Write(key)
 Spec == Init /\ [][Next]_vars
 
@@ -190,7 +197,7 @@ Quiescent == ~ENABLED Internal
 
 (* C05: when nothing can move, every controller has seen the current state of its inputs *)
 RObserved(c) ==
-  \A i \in Cfg[c].ins : \A key \in {x \in Keys : Matches(i, x)} :
+  \A i \in Ins(c) : \A key \in {x \in Keys : Matches(i, x)} :
      IF i.ik = "destroyReady"
      THEN (store[key].ver > 0 /\ DestroyReady(store[key])) => robs[c][key] = store[key]
      ELSE robs[c][key] = store[key]
